@@ -460,7 +460,10 @@ fn c07_items(tier: Tier) -> Vec<C07Item> {
             pairs.push((a, b));
         }
     }
-    pairs.extend([(147, 160), (160, 147), (44100, 48000), (48000, 8000), (44100, 44110)]);
+    pairs.extend([(147, 160), (160, 147), (44100, 48000), (48000, 8000)]);
+    if !q {
+        pairs.push((44100, 44110));
+    }
     // wider sweep of rate pairs with three requested sizes each (block-size arithmetic: gcd,
     // rounding of the block count, products that are not exact in floating point)
     let wide = if q { 24 } else { 64 };
@@ -485,7 +488,7 @@ fn c07_items(tier: Tier) -> Vec<C07Item> {
     }
     for (a, b) in pairs {
         let mut cfgs = Vec::new();
-        let chunks: Vec<usize> = if a > 100 { vec![64, 1000, 10000] } else { (1..=maxchunk).collect() };
+        let chunks: Vec<usize> = if a > 100 { if q { vec![64, 1000] } else { vec![64, 1000, 10000] } } else { (1..=maxchunk).collect() };
         for chunk in chunks {
             for sub in 1..=4usize {
                 if chunk / sub == 0 {
